@@ -27,7 +27,9 @@ let rand_scalar () : scalar =
   | 6 -> SDouble (sf_of_bits f64 (z_of_hex (pick ["400921fb54442d18"; "3ff8000000000000"; "3fb999999999999a"; "7fefffffffffffff"; "c0c3880000000000"])))
   | 7 | 8 | 9 -> SStr (pick keys @ (if rand 3 = 0 then pick keys else []))
   | 10 -> SStr (List.init (rand 40) (fun _ -> n_of_int (97 + rand 26)))
-  | _ -> SRaw (List.map (fun c -> n_of_int (Char.code c)) (List.of_seq (String.to_seq (pick ["1"; "[1,2]"; "\"x\""; "null"]))))
+  | _ -> SRaw (List.map (fun c -> n_of_int (Char.code c)) (List.of_seq (String.to_seq (pick ["1"; "[1,2]"; "\"x\""; "null";
+            (* raw values that are MessagePack bin / ext objects (given through MsgPackBinary / MsgPackExtension by the harness): equal sizes, different bytes *)
+            "\xc4\x02\x01\x02"; "\xc4\x02\x03\x04"; "\xc4\x02\x03\x04"; "\xc4\x00"; "\xc4\x03abc"; "\xd5\x07\x01\x02"; "\xd5\x07\x03\x04"]))))
 
 let texts = ["[1,2,3]"; "{\"a\":1,\"b\":[true,null]}"; "\"str\""; "42"; "[[[]]]"; "{\"a\":{\"b\":{\"c\":1}}}"; "[1,"; "{\"k\":"; ""; "nul";
              "[1.5,\"x\",{\"k\":[]}]"; "{\"a\":1,\"a\":2}"; "  [ ]  "; "[1]garbage"]
@@ -171,8 +173,8 @@ let gen_history (seed : int) (nops : int) (ndocs : int) (profile : int) : string
             custom := Some (fun w -> doc_move w (nat_of_int d) (nat_of_int s));
             (Printf.sprintf "dmove %d %d" d s, ODocSwap (nat_of_int d, nat_of_int s), None)
         | 0 -> (Printf.sprintf "dclear %d" d, ODocClear (nat_of_int d), None)
-        | 1 -> if d = s then (Printf.sprintf "dshrink %d" d, ODocShrink (nat_of_int d), None)
-               else (Printf.sprintf "dcopy %d %d" d s, ODocCopy (nat_of_int d, nat_of_int s), None)
+        | 1 -> if d = s && rand 2 = 0 then (Printf.sprintf "dshrink %d" d, ODocShrink (nat_of_int d), None)
+               else (Printf.sprintf "dcopy %d %d" d s, ODocCopy (nat_of_int d, nat_of_int s), None)      (* d = s: a document assigned to itself keeps its value *)
         | 2 -> if d = s then (Printf.sprintf "dshrink %d" d, ODocShrink (nat_of_int d), None)
                else (Printf.sprintf "dswap %d %d" d s, ODocSwap (nat_of_int d, nat_of_int s), None)
         | 3 when d <> s ->
